@@ -167,7 +167,10 @@ def annotation_type(self, ann):
             return table[src]
         if src in ("str | None", "Optional[str]"):
             return Opt(STR)
-    return None
+    try:
+        return self._ann_type(ann)      # plain annotations: builtin scalars, list/set/dict of them, names declared by the module (reg.ann_types)
+    except Exception:
+        return None
 
 
 def s_AugAssign(self, node, st):
